@@ -239,6 +239,23 @@ Proof.
   exists (split_chunks [2;2;2;2;2;2;2;2;2;2] (zrange0 20)). vm_compute. repeat split; reflexivity.
 Qed.
 
+(* The depth of the tree is a function of the block count the child ADVERTISES when the reduction is built
+   (tree_depth numblocks ...).  For arg reductions (_tree_reduce at construction) a later rewrite or another unify
+   policy can give the child MORE blocks than that (findings F33d, F5b): the tree laid out for 2 blocks (depth 1,
+   split_every 2) is then run on 3 blocks, its single aggregate level has two output blocks, keepdims=False gives
+   both the key () and the last one survives — the first group of blocks is silently dropped.  The theorems above
+   need `tree_ok k depth blocks` (k^depth >= number of blocks); this is what fails. *)
+Theorem C18_tree_laid_out_for_advertised_block_count_refuted :
+  exists (advertised actual : list (list Z)),
+    tree_depth [Z.of_nat (length advertised)] [(0, 2)] (exact_logs [Z.of_nat (length advertised)] [(0, 2)]) = Some 1 /\
+    concat advertised = concat actual /\
+    dict_last (tree_reduce_1d red_sum 2 1 advertised) = [zsum (concat advertised)] /\
+    dict_last (tree_reduce_1d red_sum 2 1 actual) <> [zsum (concat actual)].
+Proof.
+  exists [[7; 4]; [8; 5; 9; 10]], [[7]; [4]; [8; 5; 9; 10]].
+  vm_compute. repeat split; try reflexivity. intros H. discriminate H.
+Qed.
+
 (* var / std / moment (model: theories/TreeReduceMoment.v, exact rationals, None = NaN).
    FULL STATEMENT, NOT PROVED for non-empty blocks (Chan's pairwise update over Q; only checked by
    the correspondence harness against the implementation and NumPy):
@@ -373,6 +390,7 @@ Print Assumptions C18_argmax_argmin_orders.
 Print Assumptions C18_argmax_ravel_refuted.
 Print Assumptions C18_argmax_ravel_chunking_refuted.
 Print Assumptions C18_split_every_one_refuted.
+Print Assumptions C18_tree_laid_out_for_advertised_block_count_refuted.
 Print Assumptions C18_var_empty_block_refuted.
 Print Assumptions C18_slice_through_reduction.
 Print Assumptions C18_slice_final_index.
